@@ -76,6 +76,8 @@ impl ProvisionSharedState {
             // It indicate the time_tick when GPA service provision is finished, 0 means not finished
             let mut provision_finished_time_tick: i128 = 0;
             while let Some(action) = rx.recv().await {
+                #[cfg(gpa_verif)]
+                crate::verif_hook::delay_point("actor_provision").await;
                 match action {
                     ProvisionAction::UpdateState { state, response } => {
                         provision_state |= state;
